@@ -309,7 +309,8 @@ def new_bytearray(items=()):
     return bytearray(items)
 
 
-def scheduler():
-    """install a deterministic thread scheduler for the lock/condition models (see symx.sched)"""
+def scheduler(preempt=0, only=None, delay=False, lines=True):
+    """install a deterministic thread scheduler for the lock/condition models (see symx.sched);
+    preempt=k additionally explores up to k preemptions at source-line granularity inside canopen code"""
     from .sched import Scheduler
-    return Scheduler()
+    return Scheduler(preempt, only, delay, lines)
